@@ -179,7 +179,7 @@ func runC10(r *ev.Run) {
 				ever[d.ID] = true
 				durable[d.ID] = true
 			}
-			if rng.IntN(3) == 0 {
+			if rng.IntN(3) == 0 || (f == nFlush-1 && ci%2 == 0) {
 				s.VerifRotate() // empty writable + frozen unflushed memtable (what Train() or a rejected oversized Add leave behind)
 				r.Count("completed-flushes-with-the-writable-memtable-already-rotated-out", 1)
 			}
